@@ -278,13 +278,18 @@ func genC14(env *core.Env, emit func(core.Case)) {
 	r := env.Rng
 	srv := zoneh.NewServer(env.Seed)
 	defer srv.Close()
-	resolver, err := ech.NewResolver(srv.URL())
-	if err != nil {
-		panic(err)
+	var resolvers []*ech.Resolver
+	for range 24 {
+		rs, err := ech.NewResolver(srv.URL())
+		if err != nil {
+			panic(err)
+		}
+		rs.SetCacheSize(0)
+		resolvers = append(resolvers, rs)
 	}
-	resolver.SetCacheSize(0)
-	n := env.Pick(1500, 40000)
+	n := env.Pick(1500, 25000)
 	for i := 0; i < n; i++ {
+		resolver := resolvers[i%len(resolvers)]
 		// host
 		var host string
 		hostClass := "normal"
